@@ -172,10 +172,13 @@ def ref_entry(entry, reg, server_version):
         return Entry("invalid:no-version-marker", Exp("error", "invalid", None, (-32600,)))
     method = entry.get("method")
     params = entry["params"] if "params" in entry else []
+    # a request object that carries "jsonrpc" is answered in the server's own form, valid or not;
+    # without the member the form of an INVALID request is not judged
+    iform = sform if "jsonrpc" in entry else None
     if not method or type(method) is not str:
-        return Entry("invalid:method", Exp("error", "invalid", eid, (-32600,)))
+        return Entry("invalid:method", Exp("error", "invalid", eid, (-32600,), form=iform))
     if type(params) not in (list, dict):
-        return Entry("invalid:params", Exp("error", "invalid", eid, (-32600,)))
+        return Entry("invalid:params", Exp("error", "invalid", eid, (-32600,), form=iform))
     form = sform if "jsonrpc" in entry else "1.0"
     notif = "id" not in entry or entry["id"] is None or (type(entry["id"]) is str and entry["id"] == "")
     args, kwargs = (params, {}) if type(params) is list else ([], params)
@@ -204,6 +207,9 @@ def ref_entry(entry, reg, server_version):
     out = target.outcome(bound)
     if out[0] == "return":
         return done("ok", Exp("result", "ok", eid, value=out[1], form=form), inv)
+    if out[0] == "fault":
+        return done("returns-fault", Exp("error", "returns-fault", eid, (out[1],), form=form,
+                                         msg_parts=("shared fault object",)), inv)
     if out[0] == "unconvertible":
         return done("unconvertible-result", Exp("error", "unconvertible-result", eid, (-32603,), form=form), inv)
     exc_cls, msg = out[1], out[2]
